@@ -223,6 +223,10 @@ func c05run(c *h.Ctx, family string, in []byte, what string) {
 			continue
 		}
 		limit := uint64(4<<20) + 4096*uint64(n)
+		if what == "gzip of gzip of zeros" {
+			// (nothing in there for a tile decoder to build anything from: the inflated first level is a gzip stream, not a tile)
+			limit = uint64(4<<20) + 16*uint64(n)
+		}
 		used := a1 - a0
 		c.Max("max_alloc_bytes_per_input_byte_(inputs_>=_64_bytes)", allocRatio(used, n), func() string { return d.name + " " + what })
 		if used > limit {
@@ -888,7 +892,34 @@ func init() {
 							}
 						}
 					}
+					if fam == "json" && r.P(1, 6) {
+						// the documented hooks for another JSON codec, in every combination (both, output side only, input side only)
+						switch r.Intn(3) {
+						case 0:
+							geojson.CustomJSONMarshaler, geojson.CustomJSONUnmarshaler = c02codec{}, c02codec{}
+						case 1:
+							geojson.CustomJSONMarshaler = c02codec{}
+						default:
+							geojson.CustomJSONUnmarshaler = c02codec{useNumber: r.Bool()}
+						}
+						how += "+codec hooks set"
+						c.Count("json_inputs_decoded_with_codec_hooks_set", 1)
+					}
+					if fam == "mvt" && r.P(1, 300) {
+						// a gzip stream whose content is again a gzip stream (of a long run of zeros): the second level is not the
+						// decoder's business
+						var inner, outer bytes.Buffer
+						zw := gzip.NewWriter(&inner)
+						zw.Write(make([]byte, (8+r.Intn(56))<<20))
+						zw.Close()
+						zw2 := gzip.NewWriter(&outer)
+						zw2.Write(inner.Bytes())
+						zw2.Close()
+						in, how = outer.Bytes(), "gzip of gzip of zeros"
+						c.Count("nested_gzip_inputs", 1)
+					}
 					c05run(c, fam, in, how)
+					geojson.CustomJSONMarshaler, geojson.CustomJSONUnmarshaler = nil, nil
 					if len(in) >= 8 {
 						c.Nontrivial(h.Mix(h.HashString(fam), h.HashBytes(in)))
 						if len(in) < 200 {
